@@ -417,8 +417,11 @@ func executeAs(s *rt.Spec, scn *rt.Scenario, prop, regName string) *execResult {
 		env := rt.NewEnv(i, s, sc)
 		env.Race = prop == "C12"
 		env.Census = prop == "C03"
+		if rt.HooksOn {
+			// (the inner driver of C04 is built with the scheduler's hook points)
+			hooksOnce.Do(func() { rt.InstallHooks(); rt.SetPerturb(true) })
+		}
 		if sc.PFirst > 0 {
-			hooksOnce.Do(rt.InstallHooks)
 			if len(base) > 0 {
 				// schedulers of an earlier, abandoned execution are still alive:
 				// their results would release the parked functions early
